@@ -97,9 +97,9 @@ func itemTab(n int) []Item {
 	return t
 }
 
-var intCmps = []string{"nat", "rev", "div9", "mod5", "natbig"}
-var strCmps = []string{"nat", "rev", "len", "fold", "natbig"}
-var itemCmps = []string{"nat", "rev", "natbig"}
+var intCmps = []string{"nat", "rev", "div9", "mod5", "natbig", "diff"}
+var strCmps = []string{"nat", "rev", "len", "fold", "natbig", "diff"}
+var itemCmps = []string{"nat", "rev", "natbig", "diff"}
 
 func intDom(n int, cmpName string, off int) *Dom[int] {
 	d := &Dom[int]{Elem: "int", CmpName: cmpName, Tab: intTab(n, off), Str: strconv.Itoa}
@@ -114,6 +114,9 @@ func intDom(n int, cmpName string, off int) *Dom[int] {
 		d.Class = strconv.Itoa
 	case "natbig": // a legal comparator that returns values other than -1/0/1
 		d.Cmp = func(a, b int) int { return cmp.Compare(a, b) * (1<<40 + 7) }
+		d.Class = strconv.Itoa
+	case "diff": // the classic subtraction comparator, made overflow-safe: magnitudes 1..200
+		d.Cmp = intDiff
 		d.Class = strconv.Itoa
 	case "div9":
 		d.Cmp = func(a, b int) int { return cmp.Compare(floorDiv(a, 9), floorDiv(b, 9)) }
@@ -155,6 +158,9 @@ func strDom(n int, cmpName string, off int) *Dom[string] {
 	case "natbig":
 		d.Cmp = func(a, b string) int { return cmp.Compare(a, b) * (1<<40 + 7) }
 		d.Class = strconv.Quote
+	case "diff": // byte difference at the first differing position, else length difference
+		d.Cmp = strDiff
+		d.Class = strconv.Quote
 	case "len":
 		d.Cmp = func(a, b string) int { return cmp.Compare(len(a), len(b)) }
 		d.Class = func(a string) string { return "c" + strconv.Itoa(len(a)) }
@@ -184,11 +190,82 @@ func itemDom(n int, cmpName string) *Dom[Item] {
 		d.Cmp = func(a, b Item) int { return cmp.Compare(b.P, a.P) }
 	case "natbig":
 		d.Cmp = func(a, b Item) int { return cmp.Compare(a.P, b.P) * (1<<40 + 7) }
+	case "diff":
+		d.Cmp = func(a, b Item) int { return intDiff(a.P, b.P) * 40 }
 	default:
 		panic("unknown item comparator " + cmpName)
 	}
 	d.Class = func(a Item) string { return "c" + strconv.Itoa(a.P) }
 	d.Probes = []Item{{P: -1000, ID: -1}, {P: 1000, ID: -2}}
+	return d
+}
+
+// intDiff is a-b saturated at +-200 and computed without overflow: a legal strict weak order whose
+// results are not limited to -1/0/1 (and whose low byte may contradict its sign).
+func intDiff(a, b int) int {
+	switch {
+	case a == b:
+		return 0
+	case a > b:
+		if d := uint64(a) - uint64(b); d < 200 {
+			return int(d)
+		}
+		return 200
+	}
+	if d := uint64(b) - uint64(a); d < 200 {
+		return -int(d)
+	}
+	return -200
+}
+
+func strDiff(a, b string) int {
+	for i := 0; i < len(a) && i < len(b); i++ {
+		if a[i] != b[i] {
+			return int(a[i]) - int(b[i])
+		}
+	}
+	return len(a) - len(b)
+}
+
+// floatDom: float64 elements including NaN, the infinities and both zeros. Only used with the
+// comparator-based containers (cmp.Compare orders NaN below everything and treats -0 and +0 as equal)
+// and in the C15 world; NaN is not JSON-representable, so the persistence worlds never see it.
+var specialFloats = []float64{math.NaN(), math.Inf(-1), math.Inf(1), 0, math.Copysign(0, -1), 1.5, -1.5, math.MaxFloat64, math.SmallestNonzeroFloat64, -math.MaxFloat64, 1e15 + 0.5}
+
+func fstr(f float64) string {
+	if f == 0 && math.Signbit(f) {
+		return "-0"
+	}
+	return strconv.FormatFloat(f, 'g', -1, 64)
+}
+
+func floatDom(n int, cmpName string, off int) *Dom[float64] {
+	d := &Dom[float64]{Elem: "float", CmpName: cmpName, Str: fstr}
+	for i := 0; i < n; i++ {
+		if i < n/2+1 && i < len(specialFloats) {
+			d.Tab = append(d.Tab, specialFloats[(i+off)%len(specialFloats)])
+		} else {
+			d.Tab = append(d.Tab, float64(i-n/2)*2.5)
+		}
+	}
+	cls := func(f float64) string {
+		if f == 0 {
+			return "0" // -0 and +0 compare equal
+		}
+		return fstr(f)
+	}
+	switch cmpName {
+	case "", "nat":
+		d.CmpName = "nat"
+		d.Cmp = cmp.Compare[float64]
+		d.Ordered = true
+	case "rev":
+		d.Cmp = func(a, b float64) int { return cmp.Compare(b, a) }
+	default:
+		panic("unknown float comparator " + cmpName)
+	}
+	d.Class = cls
+	d.Probes = []float64{-1e300, 1e300, 0.25, -0.25, math.NaN(), 7.75}
 	return d
 }
 
